@@ -46,7 +46,7 @@ class GetNextTasks(Unit):
         "orquesta.conducting.WorkflowConductor.get_workflow_status",
     ]
     obligations = {
-        "C04.gnt.guard": {"props": ["C04", "C09", "C10", "C03"], "text":
+        "C04.gnt.guard": {"props": ["C04", "C09", "C10", "C03", "C02"], "text":
             "workflow not in a running status and no ready run-on-fail entry on a failed workflow => returns [] and touches nothing (no rendering, no log, no status request)"},
         "C04.gnt.remediation_only": {"props": ["C04", "C01"], "text":
             "on a failed workflow only ready run_on_fail entries are offered"},
@@ -276,7 +276,7 @@ class GetNextTasksUnbounded(Unit):
     name = "C.get_next_tasks.unbounded"
     functions = ["orquesta.conducting.WorkflowConductor.get_next_tasks", "orquesta.conducting.WorkflowState.get_staged_tasks"]
     obligations = {
-        "C04.gnt.guard_any_state": {"props": ["C04", "C09", "C10", "C03"], "text":
+        "C04.gnt.guard_any_state": {"props": ["C04", "C09", "C10", "C03", "C02"], "text":
             "for a staged list of any length: outside the running statuses, and unless the workflow is failed with a ready run-on-fail entry, get_next_tasks returns [] without rendering, logging or requesting anything"},
         "C01.gnt.offer_justified": {"props": ["C01", "C04", "C12", "C13"], "text":
             "for a staged list of any length, in an arbitrary loop iteration: whatever is appended to the offers is the rendering of a staged entry that is ready and not completed (and run_on_fail when the workflow is failed), carries that entry's id and route, and its delay is the entry's retry delay (or 0) when it carries a retry"},
